@@ -14,7 +14,7 @@ import (
 // (chosen so that the property's mechanisms collide) and reports only its own oracle clauses.
 
 func c05NodeScenarios() []histParams {
-	ev := []string{"tx:T:R1", "tx:U1:D1", "tx:U1:D2", "tx:U1:R1", "tx:T:R3", "tx:U1:M1", "tx:U1:M2", "tx:U1:I1", "mine+:R1", "mine+:D2", "tick:250", "tick:2300", "restart"}
+	ev := []string{"tx:T:R1", "tx:U1:D1", "tx:T:D1", "tx:U1:D2", "tx:U1:R1", "tx:T:R3", "tx:U1:M1", "tx:U1:M2", "tx:U1:I1", "mine+:R1", "mine+:D2", "tick:250", "tick:2300", "restart"}
 	return []histParams{{Prop: "C05", Cfg: txCfg(1), Boot: "synced", Events: ev, Tx: true}}
 }
 
@@ -24,7 +24,7 @@ func c06Scenarios() []histParams {
 }
 
 func c07Scenarios() []histParams {
-	ev := []string{"tx:U1:R1", "inv:T:R1", "tx:T:R1", "ans", "tx:U1:D1", "tx:T:R3", "tx:U1:M2", "local:R3", "tick:100", "tick:1900", "tick:2300", "mine+:R1", "mine+:", "restart"}
+	ev := []string{"tx:U1:R1", "inv:T:R1", "tx:T:R1", "ans", "tx:U1:D1", "tx:T:D1", "tx:T:R3", "tx:U1:M2", "local:R3", "tick:100", "tick:1900", "tick:2300", "mine+:R1", "mine+:", "restart"}
 	return []histParams{{Prop: "C07", Cfg: txCfg(1), Boot: "synced", Events: ev, Tx: true, Live: true}}
 }
 
